@@ -5,6 +5,7 @@ import (
 	"encoding/json"
 	"fmt"
 	"os"
+	"os/exec"
 	"sort"
 	"strconv"
 	"strings"
@@ -500,6 +501,15 @@ func workerShrink(t *testing.T) {
 
 	try := func(sc any, list []uint16) (bool, *simrt.Result, Verdict, *simrt.Choices) {
 		stats.Trials++
+
+		if simrt.RaceBuild {
+			// The race detector reports a given pair of stacks once per process, so a
+			// candidate has to be judged in a process of its own: this binary in replay mode.
+			ch := simrt.ReplayChoices(append([]uint16(nil), list...), f.PickByPrio, f.PrioSeed)
+
+			return replayInChild(t, f, sc, list), nil, Verdict{}, ch
+		}
+
 		ch := simrt.ReplayChoices(append([]uint16(nil), list...), f.PickByPrio, f.PrioSeed)
 		res, v := executeOnce(t, eng, f.Property, sc, ch, false)
 
@@ -537,8 +547,10 @@ func workerShrink(t *testing.T) {
 	structural()
 
 	// decisions: truncate, then zero blocks of decreasing size
-	if ok, _, _, ch := try(sc, list); ok {
-		list = append([]uint16(nil), ch.List()...)
+	if !simrt.RaceBuild {
+		if ok, _, _, ch := try(sc, list); ok {
+			list = append([]uint16(nil), ch.List()...)
+		}
 	}
 
 	for _, frac := range []int{8, 4, 2} {
@@ -578,6 +590,21 @@ func workerShrink(t *testing.T) {
 	}
 
 	structural()
+
+	if simrt.RaceBuild {
+		raw, _ := json.Marshal(sc)
+		f.Scenario = raw
+		f.Choices = sparse(list)
+		stats.ScenarioBytes1 = len(raw)
+		stats.NonDefault1 = len(f.Choices.NZ)
+		stats.ChoicesConsumed = f.Choices.N
+		f.Shrink = stats
+		f.Hash = ""
+
+		writeJSON(t, os.Getenv("SIM_OUT"), f)
+
+		return
+	}
 
 	// final run: consumed decisions, trace, hash
 	ch := simrt.ReplayChoices(append([]uint16(nil), list...), f.PickByPrio, f.PrioSeed)
@@ -637,6 +664,41 @@ func compress(lines []string) []string {
 	}
 
 	return out
+}
+
+// replayInChild judges one candidate in a fresh process (race build only).
+func replayInChild(t *testing.T, f *Failure, sc any, list []uint16) bool {
+	dir, err := os.MkdirTemp("", "cqos-sim-trial-")
+	if err != nil {
+		t.Fatal(err)
+	}
+
+	defer os.RemoveAll(dir)
+
+	raw, _ := json.Marshal(sc)
+	cand := *f
+	cand.Scenario = raw
+	cand.Choices = sparse(list)
+	cand.Trace = nil
+
+	in, out := dir+"/in.json", dir+"/out.json"
+	writeJSON(t, in, &cand)
+
+	cmd := exec.Command(os.Args[0], "-test.run", "TestSim", "-test.timeout", "0")
+	cmd.Env = append(os.Environ(), "SIM_MODE=replay", "SIM_IN="+in, "SIM_OUT="+out, "GORACE=halt_on_error=0")
+	cmd.Run() // exit status 1 when a race was reported: the report file decides
+
+	data, err := os.ReadFile(out)
+	if err != nil {
+		return false
+	}
+
+	var rep ReplayReport
+	if json.Unmarshal(data, &rep) != nil {
+		return false
+	}
+
+	return rep.Reproduced
 }
 
 func tail(lines []string, n int) []string {
